@@ -48,6 +48,11 @@ type c40A struct {
 	Ver  int64  `json:"ver" redis:",ver"`
 	Name string `json:"name"`
 	N    int64  `json:"n"`
+	Tag  c40Tag `json:"tag"` // a struct-kind field (stored JSON-encoded in a hash); always carries the same text as Name
+}
+
+type c40Tag struct {
+	V string `json:"v"`
 }
 
 type c40cfg struct {
@@ -92,7 +97,7 @@ func c40body(c c40cfg) func(x *vsched.Exec) {
 			return NewHashRepository("p", c40A{}, cl)
 		}
 		shared := mkRepo()
-		base := &c40A{Key: "e1", Name: "init"}
+		base := &c40A{Key: "e1", Name: "init", Tag: c40Tag{V: "init"}}
 		for i := 0; i < c.initial; i++ {
 			base.N = int64(i)
 			if err := shared.Save(ctx, base); err != nil {
@@ -130,6 +135,7 @@ func c40body(c c40cfg) func(x *vsched.Exec) {
 			vsched.GoNamed(fmt.Sprintf("s%d", i), func() {
 				thrOf[i] = vsched.CurID()
 				do := func(e *c40A, fetched bool) {
+					e.Tag = c40Tag{V: e.Name}
 					s := &c40save{thr: vsched.CurID(), base: e.Ver, name: e.Name, n: e.N, fetched: fetched}
 					saves = append(saves, s)
 					s.err = repo.Save(ctx, e)
@@ -258,7 +264,7 @@ func c40body(c c40cfg) func(x *vsched.Exec) {
 			x.Fail("stored version is not the initial version plus the number of successful Saves", "stored %d, reference %d%s", got.Ver, V, desc())
 			return
 		}
-		if winner != nil && (got.Name != winner.name || got.N != winner.n || got.Key != "e1") {
+		if winner != nil && (got.Name != winner.name || got.N != winner.n || got.Key != "e1" || got.Tag.V != winner.name) {
 			x.Fail("stored fields are not those of the last successful Save", "stored %+v, winner %+v%s", *got, *winner, desc())
 			return
 		}
@@ -655,10 +661,88 @@ func c40mixed(r *vrun.Run, kind string, only *c40rtCase) {
 	}
 }
 
+
+// SaveMulti: three different mixed entities in one call (every ordered pair of the six values of the struct field and
+// of the string field), then each is fetched and compared; and the same batch again as an update (version 2).
+func c40multi(r *vrun.Run, kind string, only *c40rtCase) {
+	env, rejected := c40newEnv(kind, "mixed", c40Mixed{})
+	if env == nil {
+		r.Violate(kind+": mixed schema rejected", rejected, c40rtCase{RT: true, Repo: kind, Type: "multi"})
+		return
+	}
+	ctx := context.Background()
+	for i := 0; i < 6; i++ {
+		for j := 0; j < 6; j++ {
+			if only != nil && (only.I != i || only.J != j) {
+				continue
+			}
+			r.Evaluations++
+			r.StateStr("B", kind, "multi", strconv.Itoa(i), strconv.Itoa(j))
+			r.NonTrivialStr("B", kind, "multi", strconv.Itoa(i), strconv.Itoa(j))
+			rc := c40rtCase{RT: true, Repo: kind, Type: "multi", I: i, J: j}
+			var es []*c40Mixed
+			for k, fv := range [][4]int{{5, i, 0, i}, {5, j, 0, j}, {5, (i + j + 1) % 6, 4, j}} {
+				e := env.repo.NewEntity()
+				e.Key = fmt.Sprintf("sm%d%d_%d", i, j, k)
+				c40mixedSet(fv[0], fv[1], e)
+				c40mixedSet(fv[2], fv[3], e)
+				es = append(es, e)
+			}
+			bad := false
+			for round := int64(1); round <= 2 && !bad; round++ {
+				if round == 2 {
+					for _, e := range es {
+						e.N += 7 // an update of every entity
+					}
+				}
+				var errs []error
+				p, site := vrun.Catch(func() { errs = env.repo.SaveMulti(ctx, es...) })
+				if p != nil {
+					r.Violate(kind+"/multi: SaveMulti panics in "+site, fmt.Sprint(p), rc)
+					bad = true
+					break
+				}
+				for k, err := range errs {
+					if err != nil {
+						r.Violate(kind+"/multi: SaveMulti failed for an entity", fmt.Sprintf("round %d entity %d: %v", round, k, err), rc)
+						bad = true
+					}
+				}
+				for k, e := range es {
+					if bad {
+						break
+					}
+					if e.Ver != round {
+						r.Violate(kind+"/multi: successful SaveMulti did not advance the version by exactly one", fmt.Sprintf("round %d entity %d version %d", round, k, e.Ver), rc)
+						bad = true
+						break
+					}
+					got, err := env.repo.Fetch(ctx, e.Key)
+					if err != nil {
+						r.Violate(kind+"/multi: Fetch after a successful SaveMulti failed", fmt.Sprintf("round %d entity %d: %v; stored %s", round, k, err, c40stored(env.srv, env.kind, "p:"+e.Key)), rc)
+						bad = true
+						break
+					}
+					if !c40eq(reflect.ValueOf(got).Elem(), reflect.ValueOf(e).Elem()) {
+						r.Violate(kind+"/multi: Fetch differs from the entity saved by SaveMulti", fmt.Sprintf("round %d entity %d of 3\nsaved   %s\nfetched %s\nstored  %s", round, k, c40show(e), c40show(got), c40stored(env.srv, env.kind, "p:"+e.Key)), rc)
+						bad = true
+						break
+					}
+				}
+			}
+			if bad {
+				r.Outcome("B " + kind + "/multi: VIOLATION")
+			} else {
+				r.Outcome("B " + kind + "/multi: round trip ok")
+			}
+		}
+	}
+}
+
 func TestVerif_C40(t *testing.T) {
 	vrun.Main(t, "C40", func(r *vrun.Run) {
 		r.Rule = "A: hash and JSON repository x {new key, version 1, version 2} x 2-3 concurrent Save of copies (plus save-twice, fetch+save, script flush, own sessions), all schedules within the preemption/delay bound; " +
-			"B: 31 field types x their alphabets (single save and every ordered old->new update pair) + mixed 6-field entity (all field pairs x 6x6 values) on both repository kinds, Fetch + FetchCache(miss, hit); non-trivial = update pairs / mixed cases / schedules with waiting"
+			"B: 31 field types x their alphabets (single save and every ordered old->new update pair) + mixed 6-field entity (all field pairs x 6x6 values) on both repository kinds, Fetch + FetchCache(miss, hit); SaveMulti of three different mixed entities (6x6 value pairs, then the same batch as an update) with each entity fetched and compared; non-trivial = update pairs / mixed cases / schedules with waiting"
 		r.Assume("command-level fake client (Do atomic at the server, DoCache = opt-in tracking with invalidation pushes); trusted to behave as C01-C11 say")
 		r.Assume("fake RedisJSON subset keeps member values verbatim (numbers are not renormalised to i64/f64 as RedisJSON does); legacy paths '.', 'ver' as used by om")
 		r.Assume("equality: nil and empty slices/maps are equal, time.Time compared with Equal (zone name / monotonic reading are not part of the value), floats by bit pattern")
@@ -705,10 +789,17 @@ func TestVerif_C40(t *testing.T) {
 				if only.Repo == kind && only.Type == "mixed" {
 					c40mixed(r, kind, only)
 				}
+				if only.Repo == kind && only.Type == "multi" {
+					c40multi(r, kind, only)
+				}
 				continue
 			}
 			if r.Mine(item) {
 				c40mixed(r, kind, nil)
+			}
+			item++
+			if r.Mine(item) {
+				c40multi(r, kind, nil)
 			}
 		}
 	})
